@@ -84,7 +84,7 @@ fn one_case(ctx: &mut Ctx, case: &g::Case, tag: &str) {
     let mut pend: Vec<Pending> = vec![];
     // what the previous event was about to execute
     enum Prev { None, Call { regs0: Vec<u64>, a: u64, b: u64, c: u64, d: u64, call_bytes: Vec<u8>, asset: Vec<u8>, stack_len: usize, stack_hash: [u8; 32], depth: usize, bal_before: Option<(usize, [u8; 8])> },
-                Ret { regs2: Vec<u64>, line: String, heap_hash: [u8; 32], charge: u64 } }
+                Ret { regs2: Vec<u64>, line: String, heap_hash: [u8; 32], charge: u64, want_ret: (u64, u64) } }
     let mut prev = Prev::None;
     let mut state = match ctx.guard(|| vm.transact(case.ready()).map(ProgramState::from).map_err(|e| g::err_name(&e))) {
         Ok(Ok(s)) => s, Ok(Err(_)) => return, Err(m) => { ctx.oracle_fail("panic-transact", tag, &m); return; }
@@ -156,7 +156,7 @@ fn one_case(ctx: &mut Ctx, case: &g::Case, tag: &str) {
                     max_depth = max_depth.max(pend.len());
                 }
             }
-            Prev::Ret { regs2, line, heap_hash, charge } => {
+            Prev::Ret { regs2, line, heap_hash, charge, want_ret } => {
                 if let Some(p) = pend.pop() {
                     let input = format!("{} ret@pc={}", p.line, regs2[PC]);
                     ctx.emit(&line, &regs_csv(&regs));
@@ -165,6 +165,7 @@ fn one_case(ctx: &mut Ctx, case: &g::Case, tag: &str) {
                     for i in 0..64usize { if !KEPT.contains(&(i as u8)) && regs[i] != p.regs0[i] { bad.push(format!("r{i}")); } }
                     if regs[PC] != p.regs0[PC] + 4 { bad.push("pc".into()); }
                     if !bad.is_empty() { ctx.oracle_fail("registers-not-restored", &input, &bad.join(",")); }
+                    if (regs[0x0d], regs[0x0e]) != want_ret { ctx.oracle_fail("ret-registers-wrong", &input, &format!("$ret/$retl = {:?}, expected {:?}", (regs[0x0d], regs[0x0e]), want_ret)); }
                     if regs[HP] != regs2[HP] { ctx.oracle_fail("hp-not-kept", &input, "$hp after return differs from the callee's"); }
                     if regs[GGAS] + charge != regs2[GGAS] { ctx.oracle_fail("ggas-not-kept", &input, "$ggas changed by more than the instruction's own cost"); }
                     let sp0 = p.regs0[SP] as usize;
@@ -201,7 +202,7 @@ fn one_case(ctx: &mut Ctx, case: &g::Case, tag: &str) {
                         let hp = regs[HP] as usize;
                         let heap_hash = h(vm.memory().read(hp, MEM_SIZE - hp).unwrap_or(&[]));
                         let charge = costs.ret();
-                        prev = Prev::Ret { regs2: regs.clone(), line: format!("ret {} {a} {charge}", regs_csv(&regs)), heap_hash, charge };
+                        prev = Prev::Ret { regs2: regs.clone(), line: format!("ret {} {a} {charge}", regs_csv(&regs)), heap_hash, charge, want_ret: (a, 0) };
                     }
                     Instruction::RETD(op) if regs[FP] != 0 => {
                         let (ra, rb) = op.unpack();
@@ -211,7 +212,7 @@ fn one_case(ctx: &mut Ctx, case: &g::Case, tag: &str) {
                         let (pa, pb) = (regs[ra.to_u8() as usize], regs[rb.to_u8() as usize]);
                         if vm.memory().read(pa, pb).is_ok() {
                             let charge = costs.retd().resolve(pb);
-                            prev = Prev::Ret { regs2: regs.clone(), line: format!("retd {} {pa} {pb} {charge}", regs_csv(&regs)), heap_hash, charge };
+                            prev = Prev::Ret { regs2: regs.clone(), line: format!("retd {} {pa} {pb} {charge}", regs_csv(&regs)), heap_hash, charge, want_ret: (pa, pb) };
                         }
                     }
                     _ => {}
